@@ -229,6 +229,11 @@ def c14_r3(ctx: Ctx, rule):
     for c in edges:
         pos = []
         for a in c.args[:2]:
+            # a local holding the node looked up for one end: source = node_map[qn1]
+            if isinstance(a, ast.Name):
+                d = [x for x in all_assignments(fi.node, a.id) if x is not None]
+                if len(d) == 1 and isinstance(d[0], ast.Subscript) and not isinstance(d[0].slice, (ast.Constant, ast.Slice)):
+                    a = d[0]
             key = a.slice if isinstance(a, ast.Subscript) else a
             pos.append(formal_position(fi, key))
         rel = next((norm(k.value) for k in c.keywords if k.arg == "relation"), None)
